@@ -196,8 +196,54 @@ func ruleParseValidated(w *World, r *RuleResult) {
 			}
 		}
 	}
+	// a bounded integer parse is not a validation of "any number of digits"
+	for _, pf := range w.closureFuncs(f) {
+		for _, c := range w.callsTo(pf, "strconv.ParseUint") {
+			r.bad("(*Decimal).setString | NaN payload of any length", w.instrPos(c), "the NaN payload is validated by parsing it into a fixed-size integer: payloads above 2^64-1 are rejected although the grammar allows any number of digits (\"NaN18446744073709551616\")")
+		}
+	}
+	// the NaN payload may be validated by a digits-only scan instead (any number of digits is allowed):
+	// a loop over the bytes whose comparisons with '0' and '9' lead to an error return
+	digitScan := false
+	for _, pf := range w.closureFuncs(f) {
+		lo, hi := false, false
+		for _, b := range pf.Blocks {
+			iff, ok := b.Instrs[len(b.Instrs)-1].(*ssa.If)
+			if !ok {
+				continue
+			}
+			bo, ok := iff.Cond.(*ssa.BinOp)
+			if !ok {
+				continue
+			}
+			k, isK := bo.Y.(*ssa.Const)
+			if !isK || k.Value == nil || k.Value.Kind() != constant.Int {
+				continue
+			}
+			// the "not a digit" edge reaches an error return
+			errEdge := false
+			for _, sc := range b.Succs {
+				if rt, isRet := sc.Instrs[len(sc.Instrs)-1].(*ssa.Return); isRet && w.isErrorReturn(rt) {
+					errEdge = true
+				}
+			}
+			if ci(k) == '0' && bo.Op == token.LSS && errEdge {
+				lo = true
+			}
+			if ci(k) == '9' && bo.Op == token.GTR && (errEdge || lo) {
+				hi = true
+			}
+		}
+		if lo && hi {
+			digitScan = true
+		}
+	}
+	if digitScan {
+		n++
+		r.ok("(*Decimal).setString | NaN payload is a digits-only scan", w.pos(f.Pos()), "every payload byte is compared with '0' and '9'; anything else returns an error", true)
+	}
 	if n < 2 {
-		r.bad("(*Decimal).setString | payload and exponent parsers", w.pos(f.Pos()), fmt.Sprintf("expected the NaN payload and the exponent to be validated by strconv.Parse*, found %d such calls", n))
+		r.bad("(*Decimal).setString | payload and exponent parsers", w.pos(f.Pos()), fmt.Sprintf("expected the NaN payload and the exponent to be validated (strconv.Parse* or a digits-only scan with an error edge), found %d such validations", n))
 	}
 }
 
